@@ -217,9 +217,16 @@ class CallMixin(object):
                 full = self.bind_receiver(f, recv, args)
                 if full is None:
                     continue
-                out.extend(self.call_function(ctx, st, f, full, kwargs, node, closure=closure))
+                res = self.call_function(ctx, st, f, full, kwargs, node, closure=closure)
+                if f.qname in self.watch_results:
+                    self.watch_results[f.qname].append((ctx.qname, self.site(ctx, node), list(full), dict(kwargs), st, res))
+                out.extend(res)
             return out
-        return self.summary_call(ctx, st, funcs, recv, args, kwargs, node)
+        res = self.summary_call(ctx, st, funcs, recv, args, kwargs, node)
+        for f in funcs:
+            if f.qname in self.watch_results:
+                self.watch_results[f.qname].append((ctx.qname, self.site(ctx, node), [recv] + list(args) if recv is not None else list(args), dict(kwargs), st, res))
+        return res
 
     def bind_receiver(self, f, recv, args):
         if f.kind == "static" or recv is None:
